@@ -16,6 +16,10 @@ CLAIMED = {
  'C14': dict(text="Bounded symbolic model checking of the real particle bookkeeping: reb_simulation_add / remove_particle(index, keep_sorted) / remove_particle_by_hash / particle_by_hash / remove_all_particles and hash assignment are executed from LLVM IR over histories (1..3 adds followed by up to 3 operations; all op sequences in the thorough tier) with symbolic payload bits, symbolic 32-bit hashes (zero and duplicates included), symbolic 32-bit indices and hash arguments, storage made exactly full to cross realloc growth, N_active set/unset. A list-of-records reference model runs in lockstep on the same path condition; for each of the explored paths the solver proves post-state == model, lookup soundness/completeness, failure => simulation unchanged; the memory model checks every access (bounds, use-after-free, invalid free). reb_hash is proved equal to MurmurHash3_x86_32 on symbolic strings of 0..4/8 bytes. A model of every path condition is replayed natively against the list model.",
              note="UF/BITS domain: doubles are opaque bit patterns; malloc never fails; default integrator (hybrid-integrator and tree removal paths outside); N_active after an unsorted removal or after removing the last particle is undocumented and not asserted; Python Particles container not covered.",
              technique="SMT-based bounded symbolic execution of LLVM IR with forking (llsym + z3, QF_BV/UF), lockstep reference model", ref='5/C14'),
+
+ 'C05': dict(text="Bounded symbolic model checking of save/restore on the real code: for 15 reachable configurations (every integrator incl. unsynchronised and non-default options, states produced by 0-2 real steps, N=2/3) every persisted scalar — each entry of the library's own reb_binary_field_descriptor_list, every element of every persisted array (particles, p_jh, IAS15 arrays, p_int, dcrit, ...) and every documented user option even if absent from the table — is replaced by an unconstrained symbolic bit-vector; the real reb_simulation_save_to_file and reb_simulation_create_from_file are executed from LLVM IR on a model file system; R1: every location of the restored simulation holds the same term as the original; R2: saving the restored simulation again gives byte-identical content; R3 (fixed-step integrators, symbolic doubles, Kepler solver uninterpreted): one/two further real steps of original and restored give identical terms on every persisted location. Violations are replayed through the native library with real files.",
+             note="UF/BITS domain; fields that save/load branch on (N, module selectors, archive version) keep concrete reachable values (listed in evidence); callbacks not persisted by design; continuation of adaptive/hybrid integrators is only exercised by an auxiliary native twin run (not solver-decided); continuation length <= 2 steps; WHFast512 and variational configurations outside (C17 covers var_config).",
+             technique="SMT-based bounded symbolic execution of LLVM IR (llsym + z3, bit-vector/UF terms), table-driven round-trip and twin-run equality", ref='5/C05'),
 }
 NA = {}
 checks = []
